@@ -83,7 +83,15 @@ def run_c04(tier, seed):
     distinct |= d3
     stats["server_level"] = dict(keepalive_exchanges=int(c3.get("counts", {}).get("c04_server_level", 0)),
                                  exchanges_after_a_failed_request=int(c3.get("counts", {}).get("c04_server_level_after_failure", 0)),
+                                 exchanges_after_a_failed_request_with_blocked_output=int(c3.get("counts", {}).get("c04_server_level_after_failure_output_blocked", 0)),
                                  connections_closed_by_the_server_after_a_failure=int(c3.get("counts", {}).get("c04_server_closed_after_failure", 0)), **st3)
+    # the same server-level sequences with every epoll_wait of the process delayed by 0-30 ms (the worker finds several segments, or the end of one
+    # request and the beginning of the next, in one poll result)
+    res3l = vlib.run_resumable(sbin, ["--prop", "seg", "--seed", str(seed + 13), "--cases", str(8 if tier == "quick" else 200), "--poll-delay", "30"], 4,
+                               timeout=300 if tier == "quick" else 7200, work=work, tag="sl")
+    c3l, d3l, s3l, st3l = vlib.collect_runs(v, res3l, only_prefix="c04:")
+    distinct |= d3l
+    stats["server_level_late_loop_threads"] = dict(keepalive_exchanges=int(c3l.get("counts", {}).get("c04_server_level", 0)), poll_delays_injected=int(c3l.get("counts", {}).get("poll_delays_injected", 0)), **st3l)
     # the client's use of the response parser: a response after a failed one on the same pooled connection
     cbin = vlib.build_harness("client", "plain")
     res4 = vlib.run_resumable(cbin, ["--prop", "c04c", "--seed", str(seed + 5), "--cases", str(6 if tier == "quick" else 200)], 6,
